@@ -10,7 +10,7 @@ ID = "C04"
 RULE = ("id family in {sequential ints, zero-padded numbers, UUID-like (scattered and sequential), e-mail-like, two-field keys "
         "with a fixed-width first field} x population offset x salt (absent, empty, short, long, non-ASCII) x weight vector "
         "(2-8 groups, ints/decimals, optional zero-weight group, optionally one label repeated on several slices, every expected count >= 50), offsets up to 2^63 and 10^24, N distinct units (2e4 quick, 1e5 "
-        "thorough) evaluated through ExperimentEvaluator built from DSL text. Oracles: chi-square goodness-of-fit against the "
+        "thorough) evaluated through ExperimentEvaluator built from DSL text (the second salt either on a fresh evaluator or by recompile() of the live one, with a by-stander evaluator of other weights alive). Oracles: chi-square goodness-of-fit against the "
         "declared weights (zero-weight groups must stay empty) and chi-square contingency between the assignments of the same "
         "population under two different salts; reject below p = 1e-9. Non-trivial = every combination whose expected counts are "
         "all >= 50; distinct by (family, offset, salts, weights).")
@@ -21,7 +21,8 @@ ASSUMPTIONS = [
 SHARDS = {"quick": 4, "thorough": 16}
 
 FAMILIES = ["seq-int", "zero-padded", "uuid-scattered", "uuid-sequential", "email", "two-field"]
-SALTS = [None, "", "s", "exp_2024_checkout_button_colour_v3", "é-salt", "A", "B", "salt1", "salt2", "x" * 64]
+SALTS = [None, "", "s", "exp_2024_checkout_button_colour_v3", "é-salt", "A", "B", "salt1", "salt2", "x" * 64,
+         "https://exp.example/checkout/v1", "https://exp.example/checkout/v2", "a /* b */ c1", "a /* b */ c2", "{uid}", "%s"]
 REGIONS = ["EU-W", "EU-E", "US-W", "US-E", "APAC"]
 
 
@@ -63,10 +64,15 @@ def cases(draw, n):
         ws.insert(draw(st.integers(0, len(ws))), "0")
     if draw(st.integers(0, 5)) == 0:
         ws = ["1", str(int(1 / (min_share * 2)))]  # one small share
-    s1, s2 = draw(st.lists(st.sampled_from(SALTS), min_size=2, max_size=2, unique=True))
+    if draw(st.integers(0, 3)) == 0:
+        # salts that differ only after a // or inside a /* */ look-alike, or only in blanks
+        s1, s2 = draw(st.sampled_from([("https://exp.example/checkout/v1", "https://exp.example/checkout/v2"), ("a /* b */ c1", "a /* b */ c2"),
+                                       ("s 1", "s  1"), ("x // y1", "x // y2"), ("salt1", "salt2")]))
+    else:
+        s1, s2 = draw(st.lists(st.sampled_from(SALTS), min_size=2, max_size=2, unique=True))
     if {s1, s2} == {None, ""}:
         s2 = "other"
-    case = {"family": fam, "offset": draw(st.sampled_from([0, 1, 1000, 10 ** 6, 10 ** 9, 123456789, 2 ** 31, 10 ** 12, 2 ** 53 - 7, 2 ** 60,
+    case = {"second": draw(st.sampled_from(["fresh", "recompile", "recompile"])), "family": fam, "offset": draw(st.sampled_from([0, 1, 1000, 10 ** 6, 10 ** 9, 123456789, 2 ** 31, 10 ** 12, 2 ** 53 - 7, 2 ** 60,
                                                            2 ** 63 - 200000, 1541815603606036480, 10 ** 24])), "weights": ws,
             "salts": [s1, s2], "n": n}
     if len(ws) >= 3 and draw(st.integers(0, 3)) == 0:
@@ -76,16 +82,19 @@ def cases(draw, n):
     return case
 
 
-def _assign(case, salt):
+def _text(case, salt, ws):
+    labels = [M.dec(x) for x in case["labels"]] if case.get("labels") else ["g%d" % j for j in range(len(ws))]
+    body = M.ret([(M.lit_of(l), w) for l, w in zip(labels, ws)])
+    sp = ["region", "uid"] if case["family"] == "two-field" else ["uid"]
+    q = "'" if salt is not None and '"' in salt else '"'
+    return M.render(M.program("pop", body, salt=salt, splitters=sp, salt_q=q))
+
+
+def _evaluate(case, ev):
     fam = case["family"]
     ws = case["weights"]
     labels = [M.dec(x) for x in case["labels"]] if case.get("labels") else ["g%d" % j for j in range(len(ws))]
-    body = M.ret([(M.lit_of(l), w) for l, w in zip(labels, ws)])
-    sp = ["region", "uid"] if fam == "two-field" else ["uid"]
-    res = sut.compile_text(M.render(M.program("pop", body, salt=salt, splitters=sp)))
-    if res[0] != "ok":
-        return None, "does not compile: %r" % (res[1:],)
-    ev = res[1]
+
     # observed class of a result = first slice carrying the same label (value and type)
     def cls(v):
         for j, l in enumerate(labels):
@@ -123,11 +132,33 @@ def judge(case):
     viol = []
     vecs = []
     tags = ["family:" + case["family"]]
-    for salt in case["salts"]:
+    # construction order matters for state that leaks between evaluators: both evaluators of the pair (or the single live
+    # one in recompile mode) are built first, then a by-stander with other groups, weights and salt; only then do we evaluate
+    mode = case.get("second", "fresh")
+    texts = [_text(case, salt, ws) for salt in case["salts"]]
+    evs = []
+    for t in (texts if mode == "fresh" else texts[:1]):
+        r = sut.compile_text(t)
+        if r[0] != "ok":
+            return {"viol": ["does not compile: %r | %s" % (r[1:], t)], "tags": tags}
+        evs.append(r[1])
+    sut.compile_text(M.render(M.program("pop", M.ret([(M.lit_str("by%d" % j), w) for j, w in enumerate(list(reversed(ws)) + ["3"])]),
+                                         salt="bystander", splitters=["region", "uid"] if case["family"] == "two-field" else ["uid"])))
+    tags.append("second-salt-via:" + mode)
+    for si, salt in enumerate(case["salts"]):
         tags.append("salt:" + ("none" if salt is None else "empty" if salt == "" else "non-ascii" if not salt.isascii() else "ascii"))
-        a, err = _assign(case, salt)
+        if mode == "fresh":
+            ev = evs[si]
+        else:
+            ev = evs[0]
+            if si == 1:
+                try:
+                    ev.recompile(texts[1])
+                except Exception as e:
+                    return {"viol": ["recompile raised %s: %s | %s" % (type(e).__name__, e, texts[1])], "tags": tags}
+        a, err = _evaluate(case, ev)
         if err:
-            return {"viol": [err], "tags": tags}
+            return {"viol": [err + " | " + texts[si]], "tags": tags}
         vecs.append(a)
         obs = [0] * len(ws)
         for i in a:
@@ -153,7 +184,8 @@ def judge(case):
     if case["offset"] >= 2 ** 53 - 7:
         tags.append("ids>=2^53")
     return {"viol": viol, "nontrivial": min([e for e in exp if e > 0] or [0]) >= 50, "tags": tags,
-            "key": [case["family"], case["offset"], case["salts"], ws, case.get("labels")], "sample": case}
+            "key": [case["family"], case["offset"], case["salts"], ws, case.get("labels")],
+            "sample": {k: v for k, v in case.items() if not k.startswith("_")}}
 
 
 def judge_case(record):
@@ -164,6 +196,23 @@ def selftest():
     stats.selftest()
 
 
+def fixed_cases(n):
+    pairs = [("https://exp.example/checkout/v1", "https://exp.example/checkout/v2"), ("a /* b */ c1", "a /* b */ c2"), ("s 1", "s  1"),
+             ("x // y1", "x // y2"), (None, "A"), ("", "B")]
+    fams = FAMILIES
+    for i, (s1, s2) in enumerate(pairs):
+        yield {"second": "recompile", "family": fams[i % len(fams)], "offset": [0, 10 ** 6, 2 ** 60][i % 3], "weights": ["1", "1", "2"],
+               "salts": [s1, s2], "n": n}
+        yield {"second": "fresh", "family": fams[(i + 3) % len(fams)], "offset": [1, 2 ** 53 - 7, 10 ** 9][i % 3], "weights": ["3", "0", "1", "2.5"],
+               "salts": [s2, s1], "n": n}
+    yield {"second": "fresh", "family": "seq-int", "offset": 0, "weights": ["2", "1", "1", "2"], "salts": ["A", "B"], "n": n,
+           "labels": [M.enc(x) for x in ["control", "treatment", "holdout", "treatment"]]}
+
+
 def run(ctx, rec):
     n = 20000 if ctx.quick else 100000
+    if ctx.shard == 0:
+        runner.direct_run(ctx, rec, "fixed-combinations", fixed_cases(n), judge)
+        if rec.violations:
+            return
     runner.hyp_run(ctx, rec, "populations", cases(n), judge, ctx.n(8, 40), shrink=False)
